@@ -197,7 +197,7 @@ def _cow_guard_hole(b):
         # the switch testing this comparison
         for bi in sorted(b.live_blocks()):
             t = b.blocks[bi]["t"]
-            if t[0] == "switch" and t[1][0] != "k" and t[1][1][0] == pl[0]:
+            if t[0] == "switch" and t[1][0] != "k" and pl[0] in od.chain_locals(b, t[1]):      # also a switch on a named copy of the comparison
                 found = True
                 zero = [tgt for v, tgt in t[2] if v == "0"]
                 older_t = t[3] if older_true else (zero[0] if zero else None)
